@@ -1392,3 +1392,16 @@ Proof.
   destruct (nth_error l (N.to_nat i)) as [t|] eqn:E; [eauto|].
   apply nth_error_None in E. lia.
 Qed.
+
+(** the generated list of dangling nodes of a dialect ([pem_dangling_exact]) names every dangling node *)
+Lemma dangling_listed g ids :
+  forallb (fun p => Bool.eqb (node_dangling (snd p)) (memN (Pos.pred_N (fst p)) ids))
+          (PositiveMap.elements (g_nodes g)) = true ->
+  forall n, dangling_b g n = true -> memN n ids = true.
+Proof.
+  intros H n Hd. unfold dangling_b, get in Hd.
+  destruct (PositiveMap.find (key n) (g_nodes g)) as [i|] eqn:E; [|discriminate].
+  apply PositiveMap.elements_correct in E. rewrite forallb_forall in H. specialize (H _ E). cbn [fst snd] in H.
+  rewrite Hd in H. unfold key in H. rewrite N.pos_pred_succ in H.
+  destruct (memN n ids); [reflexivity|discriminate].
+Qed.
